@@ -2,9 +2,9 @@ package main
 
 import (
 	"fmt"
-	"sort"
 	"go/ast"
 	"go/token"
+	"sort"
 	"strconv"
 	"strings"
 )
